@@ -280,7 +280,12 @@ Record Reciprocal (nt : net) : Prop := {
      exists m, lookup nt um = Some m /\ kind_of m = KMan /\ minter m = Some (uid i) /\ mconn m <> None;
   (* every maneuver of an incoming lane belongs to the intersection *)
   rc_incoming : forall i ul um, In i (elems nt) -> kind_of i = KInter -> In ul (incoming i) ->
-     exists l, lookup nt ul = Some l /\ kind_of l = KLane /\ (In um (mans l) -> In um (mans i))
+     exists l, lookup nt ul = Some l /\ kind_of l = KLane /\ (In um (mans l) -> In um (mans i));
+  (* an incoming lane names a successor; if that successor itself leads on, a maneuver of the intersection passes
+     through it (a connecting lane without successor cannot carry a maneuver: rc_connecting needs an end lane) *)
+  rc_incoming_succ : forall i ul, In i (elems nt) -> kind_of i = KInter -> In ul (incoming i) ->
+     exists l uc c, lookup nt ul = Some l /\ succ l = Some uc /\ lookup nt uc = Some c /\
+       (succ c = None \/ exists um m, In um (mans i) /\ lookup nt um = Some m /\ mconn m = Some uc)
 }.
 
 Ltac use_rule H e He r :=
@@ -422,6 +427,18 @@ Proof.
       rewrite holds_FAll in Hall. destruct (Hall um Hum) as [m [Hfm Hinm]].
       cbn in Hinm. apply index_sound in Hfm. destruct Hfm as [[_ Hu]|Hf]; [congruence|].
       rewrite PositiveMap.gempty in Hf. discriminate.
+  - (* incoming: successor *) intros i ul Hi Hk Hin.
+    assert (Hr := R i 17%N _ Hi ltac:(pick Hk)).
+    rewrite holds_FAll in Hr. destruct (Hr ul Hin) as [l [Hl Hc]].
+    cbv beta in Hc; rewrite holds_FAnds in Hc.
+    assert (Hs := Hc (FDef (succ l) (fun c => FOr (FEqO (succ c) None) (FEx (mans i) (fun m => FEqO (mconn m) (succ l)))))
+                     ltac:(cbn; auto 10)).
+    rewrite holds_FDef in Hs. destruct Hs as [uc [c [Huc [Hfc Hor]]]].
+    exists l, uc, c. split; [exact Hl|]. split; [exact Huc|]. split; [exact Hfc|].
+    cbn [holds] in Hor. destruct Hor as [Hn|Hex]; [left; exact Hn|right].
+    change (holds (index (elems nt)) (FEx (mans i) (fun m => FEqO (mconn m) (succ l)))) in Hex.
+    rewrite holds_FEx in Hex. destruct Hex as [um [m [Hum [Hfm Hm]]]].
+    exists um, m. split; [exact Hum|]. split; [exact Hfm|]. cbn [holds] in Hm. congruence.
 Qed.
 
 (* ---------------------------------------------------------------- hierarchy: ownership both ways *)
